@@ -127,7 +127,7 @@ class ObjInterp(S.Interp):
 def configs(f):
     """(label, constraints, words, ptr, segments) per state of the object on entry."""
     gap = ladd(ladd(ladd(NN_, K_), ladd(C_, NK_)), lconst(1))                   # larger than any index used inside one region
-    base = [dict(C_), dict(K_), ladd(NN_, lconst(-1)), ladd(MAX_, ladd(NN_, lconst(1)), -1), ladd(MAX_, K_, -1), ladd(NK_, C_, -1),
+    base = [dict(C_), dict(K_), ladd(NN_, lconst(-1)), ladd(MAX_, ladd(NN_, lconst(1)), -1), ladd(MAX_, K_, -1), ladd(NK_, C_, -1), ladd(NK_, lconst(-1)),
             ladd(H_, gap, -1), ladd(H2_, ladd(H_, gap), -1)]
     out = []
     if f.get('clsq') == SVB:
@@ -212,6 +212,9 @@ def run_config(prog, f, E, cfg, union, limit=300):
                 if o['ptr'] is None or o['ptr'][0] != 'ptr' or not m.entails_eq(o['ptr'][1], H2_):
                     raise Violation('on return the vector does not point to the block it obtained from the allocator', None)
                 newk = NK_ if nm == 'grow' else C_
+                if m.feasible([lneg(o['allocs'][0])]):
+                    raise Violation('the allocator is asked for a block of %s slots, which is 0 on this path: a zero-sized request is not a block (realloc(p, 0) frees p and returns '
+                                    'null - the allocator wrappers then throw bad_alloc and the vector keeps a dangling pointer)' % fmt(o['allocs'][0]), None)
                 if not m.entails_eq(o['allocs'][0], newk):
                     raise Violation('the block is requested with %s slots; expected %s' % (fmt(o['allocs'][0]), fmt(newk)), None)
                 if m.feasible([ladd(ladd(w['_size'], w['_capa'], -1), lconst(-1))]):
